@@ -1364,6 +1364,10 @@ class Ctx:
     def note(self, k, v):
         self.notes[k] = v
 
+    def count_steps(self, n):
+        """real model day-steps executed on this path (pipeline harnesses): reported as transitions besides the branch decisions"""
+        self.notes["steps"] = self.notes.get("steps", 0) + int(n)
+
     def prove(self, label, cond):
         """obligation: cond holds for every input on this path."""
         if isinstance(cond, (bool, _np.bool_)):
@@ -1546,6 +1550,9 @@ class ConcCtx:
 
     def note(self, k, v):
         self.notes[k] = v
+
+    def count_steps(self, n):
+        self.notes["steps"] = self.notes.get("steps", 0) + int(n)
 
     def prove(self, label, cond):
         ok = builtins.bool(cond)
